@@ -262,7 +262,7 @@ def check(case):
 
 def run(ctx):
     ctx.corpus(check)
-    ctx.given(cases(), check, quick=160, thorough=4000, shrink=not ctx.quick)
+    ctx.given(cases(), check, quick=160, thorough=1200, shrink=not ctx.quick)
 
 
 def replay(case):
